@@ -31,6 +31,8 @@ type Config struct {
 	AtomicInvisible bool
 	CheckLeaks  bool
 	OpaqueMax   int
+	Thorough    bool
+	NoIfConv    bool
 }
 
 type Decision struct {
